@@ -1294,6 +1294,8 @@ class C15(CaseSpec):
             for (u, i, v, j) in [(0, 0, 0, 1), (0, 0, 1, 0), (0, 0, 0, 0), (0, 2, 0, 0), (1, 0, 0, 2), (0, 1, 0, 0)]:
                 steps.append("ecmp %d %d %d %d" % (u, i, v, j))
             out.append(Case("ecmp" + cls, cls, steps, dict(kind="edge-comparison")))
+            # node value type whose PartialOrd is unlike its Ord (self-checking; the twins must both print ok)
+            out.append(Case("nvord" + cls, cls, ["nvord"], dict(kind="value-type-with-PartialOrd-unlike-Ord")))
         if True:
             out += cc.gen_scc(r2, tier)[::(6 if not thorough else 1)]
         return out
